@@ -108,10 +108,50 @@ func init() {
 					last.Msgs = append(last.Msgs, pgwire.FMsg{K: "Q", S1: "unfinished " + r.Ident(20), Cut: intp(r.Range(1, 9))})
 				}
 			}
-			if r.Chance(1, 6) {
-				cc.Faults = []Fault{{Kind: "write-err", At: r.Range(0, 3), Bytes: r.Intn(4)}}
+			if r.Chance(1, 5) {
+				// a permanently or transiently failing write (the latter: exactly one
+				// write fails, e.g. the one carrying the rejection, later ones succeed)
+				if r.Bool() {
+					cc.Faults = []Fault{{Kind: "write-err", At: r.Range(0, 3), Bytes: r.Intn(4)}}
+				} else {
+					cc.Faults = []Fault{{Kind: "write-err-transient", At: r.Range(0, 3)}}
+				}
 			}
 			c.Conns = []ConnCase{cc}
+			if r.Chance(1, 4) {
+				// an earlier connection logs in successfully with credentials that are
+				// related to the ones under test: the same triple (whose password has
+				// been revoked since), or a triple that reads the same when its parts
+				// are joined with a separator
+				sep := r.Pick(":", "@", "", "/", " ", "|", "\x1f")
+				a, b := r.Ident(3), r.Ident(2)
+				var first, second [3]string // user, pw, db
+				switch r.Intn(4) {
+				case 0:
+					first = [3]string{user, pw, db}
+					second = first
+				case 1:
+					first = [3]string{a + sep + b, pw, db}
+					second = [3]string{a, b + sep + pw, db}
+				case 2:
+					first = [3]string{user, a + sep + b, db}
+					second = [3]string{user, a, b + sep + db}
+				case 3:
+					first = [3]string{a, b + sep + pw, db}
+					second = [3]string{a + sep + b, pw, db}
+				}
+				ent := AuthEntry{User: first[0], PW: first[1], DB: first[2], Out: "accept"}
+				if second == first {
+					ent.Next = r.Pick("reject", "fail", "failtrue")
+				}
+				c.Server.Validator = []AuthEntry{ent}
+				prev := ConnCase{Steps: []Step{{Msgs: []pgwire.FMsg{startupMsg(first[0], first[2])}}, {Msgs: []pgwire.FMsg{{K: "p", S1: first[1]}, {K: "X"}}}}}
+				cur := ConnCase{Steps: []Step{{Msgs: []pgwire.FMsg{startupMsg(second[0], second[2])}}, {Msgs: append([]pgwire.FMsg{{K: "p", S1: second[1]}}, tail...)}}, Cuts: genCuts(r)}
+				if r.Chance(1, 8) {
+					cur.Steps[0].IdleMs = r.PickInt(1000, 31000, 3600000)
+				}
+				c.Conns = []ConnCase{prev, cur}
+			}
 			return c
 		},
 		Check: func(x *Exec, c *Case) ([]Violation, bool) {
@@ -221,7 +261,7 @@ func init() {
 	// ------------------------------------------------------------------ C02
 	register(&Prop{
 		ID: "C02", Level: "exploration", QuickS: 25, ThoroughS: 420,
-		Rule:       "seeded sessions from the widest handler-program generator (0-4 columns with arbitrary NUL-free names, every covered OID, rows that are fine / wrong arity / unencodable at column j so that a frame is abandoned half-built, command tags, errors decorated with every combination and order of code/severity/hint/detail/source/constraint and %w wrapping, COPY responses, startup with and without authentication, oversized and unknown client messages, simple and extended protocol) with a failing or transiently failing k-th write in a third of the runs; the accepted output must parse under the strict backend grammar with zero bytes left over; the same rule runs as a monitor in every other property's runs; non-trivial = the run produced at least one ErrorResponse, DataRow or rejected row; distinct = distinct case content hashes",
+		Rule:       "seeded sessions from the widest handler-program generator (0-4 columns with arbitrary NUL-free names, every covered OID, rows that are fine / wrong arity / unencodable at column j so that a frame is abandoned half-built, command tags, errors decorated with every combination and order of code/severity/hint/detail/source/constraint and %w wrapping, COPY responses, startup with and without authentication, oversized and unknown client messages, simple and extended protocol) with a failing, transiently failing or slow (the peer stalls inside the write for 0.1 s - 1 h of simulated time, then resumes) k-th write in a third of the runs, optionally one or two SSLRequests ahead of the startup packet; the accepted output must parse under the strict backend grammar with zero bytes left over; the same rule runs as a monitor in every other property's runs; non-trivial = the run produced at least one ErrorResponse, DataRow or rejected row; distinct = distinct case content hashes",
 		Components: e1Components, Assumptions: commonAssumptions,
 		Gen: func(r *Rand, tier string) *Case {
 			c := &Case{Server: ServerCfg{Limit: smallLimit(r)}}
@@ -232,11 +272,28 @@ func init() {
 				c.Server.Params = map[string]string{r.Ident(5): r.Str(r.Intn(8))}
 				c.Server.Version = r.Pick("", "15.2", r.Str(4))
 			}
-			genHistory(r, c, histOpts{simple: true, extended: true, copy: true, errs: true, abuse: true, unknown: true, oversized: true,
+			genHistory(r, c, histOpts{manyRows: true, simple: true, extended: true, copy: true, errs: true, abuse: true, unknown: true, oversized: true,
 				stray: true, decorated: true, rich: true, binary: true, params: true, typedNull: true, unknownNames: true, closes: true, multi: true, terminate: true, maxUnits: 7})
 			if r.Chance(1, 3) {
-				kind := r.Pick("write-err", "write-err-transient", "write-err-transient")
+				kind := r.Pick("write-err", "write-err-transient", "write-err-transient", "write-slow")
 				c.Conns[0].Faults = []Fault{{Kind: kind, At: r.Range(0, 25), Bytes: r.PickInt(0, 1, 4, 5, 6, 1000)}}
+				if kind == "write-slow" {
+					// the peer stops reading in the middle of that write for a while
+					// and then resumes (simulated time passes inside the write)
+					c.Conns[0].Faults[0].Ms = r.PickInt(100, 5500, 31000, 3600000)
+				}
+			}
+			if r.Chance(1, 10) {
+				// one or two SSLRequests ahead of the startup packet (no certificates:
+				// one reply byte, then only complete backend messages)
+				cc := &c.Conns[0]
+				for n := r.Range(1, 2); n > 0; n-- {
+					if r.Bool() {
+						cc.Steps = append([]Step{{Msgs: []pgwire.FMsg{{K: "ssl"}}}}, cc.Steps...)
+					} else {
+						cc.Steps[0].Msgs = append([]pgwire.FMsg{{K: "ssl"}}, cc.Steps[0].Msgs...)
+					}
+				}
 			}
 			return c
 		},
